@@ -156,7 +156,7 @@ func TestC06(t *testing.T) {
 	enum("enum-unary", gen.UnaryAlphabet(), focusLen)
 
 	dfGen := rapid.SampledFrom([]string{"", "", "dflt", "my field"})
-	pool := append(gen.FullAlphabet(), gen.RawTerm(`x\\*`), gen.RawTerm(`a\\\\b`), gen.RawTerm(`b\*`), gen.RawTerm(`c\\?d`), gen.RawTerm(`\\`), gen.RawTerm(`a\*b*`), gen.RawTerm("NaN"), gen.RawTerm("0x1F"))
+	pool := append(gen.FullAlphabet(), gen.RawTerm(`x\\*`), gen.RawTerm(`a\\\\b`), gen.RawTerm(`b\*`), gen.RawTerm(`c\\?d`), gen.RawTerm(`\\`), gen.RawTerm(`a\*b*`), gen.RawTerm("NaN"), gen.RawTerm("0x1F"), gen.RawTerm("$"), gen.RawTerm(","), gen.RawTerm("!"), gen.RawTerm("#"), gen.RawTerm("&&"), gen.RawTerm("\x00"), gen.RawTerm("\u00a0"))
 	rawTerms := pool[len(gen.FullAlphabet()):]
 	st.Rapid(t, "printed-and-mutated", cfg.N(40000, 3000000), func(rt *rapid.T) {
 		tree := gen.GenTree(gen.ParseCfg).Draw(rt, "tree")
